@@ -74,5 +74,5 @@ pub fn run(ctx: &Ctx) {
         let rounds = want.min((budget / ops).max(8));
         MtCase { threads, rounds }
     });
-    ctx.run_prop("global-mt", ctx.cases(12, 400), strat, check_mt);
+    ctx.run_prop_opts("global-mt", ctx.cases(12, 400), 24, strat, check_mt);
 }
